@@ -19,12 +19,14 @@ PROPS = {
         unreached=["Inner::flush_async (send, unpark, future)", "that a Drained status means the queue was observed empty SINCE the previous call (temporal; P1)"],
     ),
     "C02": dict(
-        verus=[("emf_value", {})],
+        verus=[("emf_value", {}), ("emf_finish", {})],
         kani=["emf_num"],
         technique="Verus function contracts on the extracted real write_observation / write_metric_value / write_metric over a token view of the buffers",
         level_text="Deductive proof (Verus/z3), for all observation lists of any length with NaN/inf/zero-occurrence entries at any position and any multiplicity, that the metric-value fragment "
                    "appended to the EMF record is `,\"name\":` followed by one numeral or by aligned, non-empty, properly comma-separated Values/Counts arrays, that a skipped metric leaves no trace "
-                   "(truncate restores the buffer), and that the declaration list gets its comma iff non-empty. Document assembly in finish() is not reached.",
+                   "(truncate restores the buffer), and that the declaration list gets its comma iff non-empty. For the real EntryWriter::finish (document assembly; for-loops desugared, iteration stand-ins yield arbitrary elements): a validation error means nothing was written, "
+                   "recorded failures are always reported, every record handed to the writer is newline-framed, at least one record is written on success, the entry's own values are in its own record, "
+                   "and the dimension part is rebuilt from the prefix.",
         level_note="Trusted: token view of PrefixedStringBuf (6 one-line String wrappers), write_float appends one numeral of a finite double (dtoa), json_string emits one JSON string token (serde_json), "
                    "clamp_to_finite contract (assumed in the Verus unit, PROVED by the Kani harness clamp_to_finite_all_doubles of this same check for all 2^64 doubles), rewrites R1/R2/R3/R6, termination of the observation loop, Verus + z3.",
         explanation="metric-value fragment of the EMF formatter against a token grammar",
@@ -33,10 +35,10 @@ PROPS = {
             "serde_json string escaping, itoa and dtoa produce valid JSON tokens",
             "finish() concatenates the verified fragments with fixed literals (not verified: hashbrown/SmallVec iteration is outside both engines)",
         ],
-        unreached=["EntryWriter::finish (document assembly, newline framing)", "write_all_vectored (see C16)", "json_string.rs (serde_json)"],
+        unreached=["write_all_vectored's retry loop (see C16)", "json_string.rs (serde_json)", "MetricsForDimensionSet::new / EmfBuilder::build (prefix texts)", "the grammar of the whole record (only framing and composition of the verified fragments)"],
     ),
     "C08": dict(
-        verus=[("emf_cfg", {"profile_debug": True}), ("emf_cfg", {"profile_debug": False}), ("emf_validate", {}), ("emf_metric", {})],
+        verus=[("emf_cfg", {"profile_debug": True}), ("emf_cfg", {"profile_debug": False}), ("emf_validate", {}), ("emf_metric", {}), ("emf_finish", {})],
         technique="Verus function contracts on the extracted real Emf::builder / all_validations / no_validations / skip_all_validations (once per build profile) and on validate_name / timestamp / validate_string / string over a trusted ghost-map model of hashbrown's entry API",
         level_text="Deductive proof (Verus/z3) that every documented way of enabling validations really enables all three validation switches in BOTH build profiles "
                    "(cfg(debug_assertions) resolved mechanically per profile), that no_validations disables all, and that skip_all_validations is monotone and touches nothing else; "
@@ -87,7 +89,7 @@ PROPS = {
         unreached=["BackgroundQueueBuilder::capacity / do_build"],
     ),
     "C03": dict(
-        verus=[("emf_value", {}, ["write_observation", "write_metric_value", "write_metric"]), ("emf_metric", {})],
+        verus=[("emf_value", {}, ["write_observation", "write_metric_value", "write_metric"]), ("emf_metric", {}), ("emf_finish", {})],
         kani=["emf_num"],
         technique="Verus function contracts on the extracted real write_observation / write_metric (payload-carrying tokens): counts, skip rule and metric declaration",
         level_text="Deductive proof (Verus/z3), for every observation and multiplicity, that an unsigned observation is written as that integer with count = multiplicity, a float as its clamp with count = multiplicity, "
@@ -124,7 +126,7 @@ PROPS = {
         unreached=["CongressSample::update_rates / sample_rate / format (ahash map, Instant)"],
     ),
     "C14": dict(
-        verus=[("emf_fresh", {}), ("emf_value", {}, ["write_metric_value"])],
+        verus=[("emf_fresh", {}), ("emf_value", {}, ["write_metric_value"]), ("emf_finish", {})],
         technique="Verus: freshness obligation generated from the field list of the real struct State, discharged at the entry.write call of the extracted real format_with_multiplicity; write_metric_value contract independent of old counts_buf",
         level_text="Deductive proof (Verus/z3) that when the formatter hands control to the entry, every accumulating buffer and map of the formatter state is empty (prefix only) and the per-call writer is rebuilt from constants and the call's arguments, "
                    "for any prior state of the formatter (i.e. after any history of earlier entries, accepted or failed). The obligation is generated from the real struct's field list, so a new buffer without a clear fails it. "
